@@ -69,7 +69,9 @@ def mon_in_box(ri):
                     ulps = abs(v - ref) / (math.ulp(ref) or 5e-324)
                 except Exception:
                     pass
-                kind = "rounding" if ulps is not None and ulps <= 4 else "far"
+                ref = a if v < a else b
+                rel = abs(v - ref) / max(1.0, abs(ref)) if v == v else float("inf")
+                kind = "rounding" if ulps is not None and ulps <= 4 else ("within 1e-7 relative" if rel <= 1e-7 else "far")
                 return ({"alg": ri.name, "cause": "callback point outside bounds (%s)" % (cause if cause == "nan" else kind)},
                         "%s: callback %d (%s) got x[%d]=%r outside [%r,%r]" % (ri.name, k + 1, c.kind, i, v, a, b))
             if a == b and v != a:
@@ -89,8 +91,10 @@ def mon_returned_point(ri):
         return ({"alg": ri.name, "cause": "returned x was never evaluated"}, "%s: returned x is not bit-for-bit one of the %d evaluated points (ret=%d)" % (ri.name, len(ri.objcalls), ri.ret))
     vals = [unhex(c.val) for c in hits]
     if not any((v == ri.optf) or (v != v and ri.optf != ri.optf) for v in vals):
-        return ({"alg": ri.name, "cause": "opt_f differs from the objective value at the returned x"},
-                "%s: opt_f=%r but f(returned x)=%r" % (ri.name, ri.optf, vals[0]))
+        sig = {"alg": ri.name, "cause": "opt_f differs from the objective value at the returned x"}
+        if abs(ri.optf) == float("inf"):
+            sig["detail"] = "opt_f infinite%s%s" % (", constrained" if ("ineq" in ri.sp or "eq" in ri.sp) else "", ", ROUNDOFF_LIMITED" if ri.ret == -4 else "")
+        return (sig, "%s: opt_f=%r but f(returned x)=%r (ret=%d)" % (ri.name, ri.optf, vals[0], ri.ret))
     if ri.ret == 2 and "stopval" in ri.sp:
         sv = unhex(ri.sp["stopval"])
         ok = ri.optf >= sv if ri.maximize else ri.optf <= sv
